@@ -360,7 +360,45 @@ func (m *Machine) visitInstr(fr *frame, instr ssa.Instruction) continuation {
 		panic("unreachable: phi")
 
 	case *ssa.Select:
-		panic(unsupported{"select statement"})
+		// sequential model: the first ready case in source order is taken (Go picks any ready one);
+		// no case ready: default (index -1) or, for a blocking select, a hang
+		chosen := -1
+		for i, st := range instr.States {
+			ch, _ := fr.get(st.Chan).(*chanV)
+			if ch == nil {
+				continue
+			}
+			if st.Dir == types.SendOnly {
+				if ch.closed || len(ch.buf) < ch.cap {
+					chosen = i
+				}
+			} else if len(ch.buf) > 0 || ch.closed {
+				chosen = i
+			}
+			if chosen >= 0 {
+				break
+			}
+		}
+		if chosen < 0 && instr.Blocking {
+			panic(hang{"select with no ready case blocks forever at " + m.pos()})
+		}
+		res := tuple{chosen, false}
+		for i, st := range instr.States {
+			if st.Dir == types.SendOnly {
+				if i == chosen {
+					m.chanSend(fr.get(st.Chan), fr.get(st.Send))
+				}
+				continue
+			}
+			if i == chosen {
+				v, ok := m.chanRecv(fr.get(st.Chan), st.Chan.Type())
+				res[1] = ok
+				res = append(res, v)
+			} else {
+				res = append(res, zero(st.Chan.Type().Underlying().(*types.Chan).Elem()))
+			}
+		}
+		fr.set(instr, res)
 
 	default:
 		panic(fmt.Sprintf("unexpected instruction: %T", instr))
